@@ -84,6 +84,16 @@ def observe(arg):
                             "E_of_lam": dec.to_dec(float(nsf.neutron_energy(lam))),
                             "lam_of_v": dec.to_dec(float(nsf.neutron_wavelength_from_velocity(v))),
                             "args_kept": kept, "lam_of_E_vec": dec.to_dec(float(w1[0])), "E_of_lam_vec": dec.to_dec(float(e1[0]))})
+                if float(E).is_integer() and float(lam).is_integer() and float(v).is_integer():
+                    # whole numbers arrive as ints, integer arrays and lists of ints as well
+                    Ei, li, vi = int(E), int(lam), int(v)
+                    out[-1]["ints"] = {
+                        "lam_of_E": [dec.to_dec(float(nsf.neutron_wavelength(Ei))), dec.to_dec(float(nsf.neutron_wavelength(np.array([Ei, 2 * Ei]))[0])),
+                                     dec.to_dec(float(nsf.neutron_wavelength(np.int64(Ei))))],
+                        "E_of_lam": [dec.to_dec(float(nsf.neutron_energy(li))), dec.to_dec(float(nsf.neutron_energy(np.array([li, 2 * li]))[0])),
+                                     dec.to_dec(float(nsf.neutron_energy(np.int32(li))))],
+                        "lam_of_v": [dec.to_dec(float(nsf.neutron_wavelength_from_velocity(vi))),
+                                     dec.to_dec(float(nsf.neutron_wavelength_from_velocity(np.array([vi, 2 * vi]))[0]))]}
             elif kind == "anchor":
                 out.append({"ev": "anchor", "id": t["id"],
                             "lam_of_2200": dec.to_dec(float(nsf.neutron_wavelength_from_velocity(2200.0))),
